@@ -13,6 +13,13 @@ def check(run):
     scripts = F.conn(run.seed, run.tier)
     known = {k["key"]: k["text"] for k in lib.known_findings("C19")}
     nacc, rejected, events, final = B.check_family(run, "C19", scripts, "c19", kind="conn", known=known, relaxed=mc.CONN_RELAXED)
+    # the same kinds of scenario once more with the Go race detector compiled in (no trace validation: only its reports count)
+    rs = [s for s in scripts if s["family"] in ("plain", "close", "duplex", "tcp", "eof")][:40 if run.tier == "quick" else 150]
+    B.run_scripts(run, rs, "c19race", kind="conn", race=True)
+    for rep in getattr(run, "race_reports", [])[:1]:
+        run.violation("data race reported by the Go race detector while goroutines send, receive and close on one connection",
+                      files={"race.txt": rep})
+    run.add(race_detector_scenarios=len(rs))
     fams = sorted({s["family"] for s in scripts})
     run.add(distinct_nontrivial=len({lib.digest({k: v for k, v in s.items() if k != "id"}) for s in scripts}),
             samples=[{"script": scripts[0]}, {"trace_head": [{k: (v if k not in ("enc", "att", "b") else len(v)) for k, v in e.items()}
